@@ -7,13 +7,13 @@ RULE = ("random scenarios over pipes, AF_UNIX socketpairs and loopback TCP pairs
         "script runs on 8 configurations (epoll, epoll+changelist, poll, select x self-pipe/signalfd) and every iteration is judged "
         "against a raw poll(2) probe taken before and after it; non-trivial = at least one I/O callback ran; distinct = hash of the script")
 STEPS = [
-    dict(flavor="asan", harness="h_io", args=["--mode", "c04"], cases=dict(quick=3000, thorough=400000),
-         timeout=dict(quick=300, thorough=2400)),
+    dict(flavor="asan", harness="h_io", args=["--mode", "c04"], cases=dict(quick=2400, thorough=250000),
+         timeout=dict(quick=300, thorough=3600)),
 ]
 
 REG = dict(
     category="exploration",
-    text="Runtime monitor over generated scenarios (3k quick / 400k thorough scripts x 8 backend configurations, ASan+UBSan, asserts on): "
+    text="Runtime monitor over generated scenarios (2.4k quick / 250k thorough scripts x 8 backend configurations, ASan+UBSan, asserts on): "
          "every user callback (fd, what) is checked against an independent zero-timeout poll(2) probe of all fds taken immediately before and "
          "after each loop iteration: soundness (what names only requested conditions the probe confirms; never for a deleted / not added event), "
          "level-triggered completeness (probe says condition holds and event added => callback in that iteration, once per iteration while it holds), "
